@@ -1,3 +1,81 @@
-From TV Require Import Base.
-Theorem C12_placeholder : True. Proof. exact I. Qed.
-Print Assumptions C12_placeholder.
+(* C12 -- Path behaves like PurePosixPath and refuses to be used on a foreign host.
+   Property theorems only; proofs are in ProofC12.v.  PosixPath.v is an ENVIRONMENT model of
+   pathlib.PurePosixPath (validated against the real pathlib on every run); the theorems are about tbot's
+   layer on top of it: the host check and the fact that wrapping results again is harmless. *)
+From TV Require Import Base BaseLemmas PosixPath ProofC12.
+
+(* the host check: every entry point that accepts Path arguments raises WrongHostError iff one of the
+   arguments belongs to a machine that is neither the path's machine nor a clone of it *)
+Theorem C12_wrong_host_iff_construct :
+  forall h args, t_make h args = TWrongHost <-> foreign h args.
+Proof. exact wrong_host_iff_make. Qed.
+Print Assumptions C12_wrong_host_iff_construct.
+
+Theorem C12_wrong_host_iff_join :
+  forall p args, t_joinpath p args = TWrongHost <-> foreign (tp_host p) args.
+Proof. exact wrong_host_iff_joinpath. Qed.
+Print Assumptions C12_wrong_host_iff_join.
+
+Theorem C12_wrong_host_iff_reflected_division :
+  forall p key, t_rtruediv p key = TWrongHost <-> foreign (tp_host p) [key].
+Proof. exact wrong_host_iff_rtruediv. Qed.
+Print Assumptions C12_wrong_host_iff_reflected_division.
+
+Theorem C12_wrong_host_iff_relative_to :
+  forall p args, t_relative_to p args = TWrongHost <-> foreign (tp_host p) args.
+Proof. exact wrong_host_iff_relative_to. Qed.
+Print Assumptions C12_wrong_host_iff_relative_to.
+
+Theorem C12_wrong_host_iff_is_relative_to :
+  forall p args, t_is_relative_to p args = TWrongHost <-> foreign (tp_host p) args.
+Proof. exact wrong_host_iff_is_relative_to. Qed.
+Print Assumptions C12_wrong_host_iff_is_relative_to.
+
+Theorem C12_at_host :
+  forall p h, t_at_host p h = (if Nat.eqb (tp_host p) h then TOk (pp_str (tp_pp p)) else TWrongHost).
+Proof. exact at_host_spec. Qed.
+Print Assumptions C12_at_host.
+
+(* otherwise the operation is pathlib's, on the unwrapped segments, on the same host *)
+Theorem C12_construct_delegates :
+  forall h args segs, prepare h args = Some segs -> t_make h args = TOk (mkTP h (pp_make segs)).
+Proof. exact make_ok. Qed.
+Print Assumptions C12_construct_delegates.
+
+Theorem C12_with_stem_delegates :
+  forall p st, t_with_stem p st = t_with_name p (st ++ pp_suffix (tp_pp p)).
+Proof. exact with_stem_is_with_name. Qed.
+Print Assumptions C12_with_stem_delegates.
+
+Theorem C12_is_relative_to_iff_relative_to_succeeds :
+  forall p args, t_is_relative_to p args = TOk true <-> exists r, t_relative_to p args = TOk r.
+Proof. exact is_relative_to_iff. Qed.
+Print Assumptions C12_is_relative_to_iff_relative_to_succeeds.
+
+(* tbot wraps every pathlib result in a new Path, i.e. parses its string form again: harmless, because every
+   parsed path is a normal form and parsing the string of a normal form gives it back *)
+Theorem C12_parse_gives_normal_forms : forall s, wf_pp (pp_parse s).
+Proof. exact parse_is_normal. Qed.
+Print Assumptions C12_parse_gives_normal_forms.
+
+Theorem C12_rewrapping_a_normal_form_is_identity : forall p, wf_pp p -> pp_parse (pp_str p) = p.
+Proof. exact parse_str_roundtrip. Qed.
+Print Assumptions C12_rewrapping_a_normal_form_is_identity.
+
+Theorem C12_construction_is_idempotent : forall s, renorm (pp_parse s) = pp_parse s.
+Proof. exact renorm_idempotent. Qed.
+Print Assumptions C12_construction_is_idempotent.
+
+(* the environment model's relative_to / parents in closed form *)
+Theorem C12_relative_to_spec :
+  forall p other r,
+  pp_relative_to p other = Some r <->
+  pp_root p = pp_root other /\ exists rest, pp_tail p = pp_tail other ++ rest /\ r = mkPP [] rest.
+Proof. exact relative_to_spec. Qed.
+Print Assumptions C12_relative_to_spec.
+
+Theorem C12_example :
+  pp_str (pp_make [[47; 97]; [98; 47; 46; 47; 99; 46; 116; 120; 116]; [46; 46]]%N) =
+  [47; 97; 47; 98; 47; 99; 46; 116; 120; 116; 47; 46; 46]%N.
+Proof. exact path_example. Qed.
+Print Assumptions C12_example.
